@@ -15,6 +15,7 @@ inductive TStep (P : Params) (s : State) (l : Label) : PC → State → Prop whe
   | load :
       TStep P s l .load
         { s with loads := upd s.loads l (s.loads l + 1),
+                 order := if P.known l then s.order else s.order ++ [l],
                  pc := upd s.pc l (some (if P.known l then .evalStart else .finish .failed .unknown)) }
   | evalStart :
       TStep P s l .evalStart
@@ -58,7 +59,7 @@ inductive TStep (P : Params) (s : State) (l : Label) : PC → State → Prop whe
                  pc := upd s.pc l (some (.evalRest res)) }
   | evalRest (res : Results) :
       TStep P s l (.evalRest res)
-        { s with cyc := upd s.cyc l (s.cyc l || res.isNone),
+        { s with cyc := upd s.cyc l (s.cyc l || res.isNone), order := s.order ++ [l],
                  pc := upd s.pc l (some (.finish (localOutcome res (P.bodyOk l)).1 (localOutcome res (P.bodyOk l)).2)) }
   | finish (st : Status) (e : Err) :
       TStep P s l (.finish st e)
